@@ -1565,6 +1565,13 @@ func (a *Authenticator) resumeSession(ctx context.Context, entry *SessionEntry, 
 				Reason:    fmt.Sprintf("unexpected return code: %s", returnCode),
 			}
 		}
+	} else {
+		// Only an explicit AUTHORIZED resumes the session: a reply that does not
+		// say so is not the server accepting it.
+		return nil, &SessionResumptionError{
+			SessionID: entry.ID(),
+			Reason:    "resumption response carries no ReturnCode",
+		}
 	}
 
 	// Session resumed successfully, create negotiation result
